@@ -1202,6 +1202,7 @@ func (*log).delete
     assert[version_new]   !l.opts.Version.KeepRewriteVersion ==> mversion == l.opts.Version.NewSegmentsVersion.messages && iversion == l.opts.Version.NewSegmentsVersion.index at call (Segment).Rewrite 1
     assert[version_keep1] l.opts.Version.KeepRewriteVersion && wasWriter && writerVersion == message.V1 ==> mversion == message.V1 && iversion == index.V1 at call (Segment).Rewrite 1
     assert[version_keep2] l.opts.Version.KeepRewriteVersion && wasWriter && writerVersion == message.V2 ==> mversion == message.V2 && iversion == index.V2 at call (Segment).Rewrite 1
+    assert[version_detect] wasWriter ==> writerVersion == l.writer.messages.version at call (Segment).Rewrite 1
     assert[version_pair]  (mversion == message.V1 && iversion == index.V1) || (mversion == message.V2 && iversion == index.V2)
                           || (mversion == l.opts.Version.NewSegmentsVersion.messages && iversion == l.opts.Version.NewSegmentsVersion.index) at call (Segment).Rewrite 1
     requires[sync_ok] wOK(l.writer)
@@ -1274,6 +1275,8 @@ func Open
     // ... and a failed Open leaves the lock table as it found it
     ensures[flock_failed]   err != nil ==> (forall p string :: lkExcl[p] == old(lkExcl)[p] && lkShared[p] == old(lkShared)[p])
     ensures[flock_others]   forall p string :: p != lockFile(dir) ==> lkExcl[p] == old(lkExcl)[p] && lkShared[p] == old(lkShared)[p]
+    // a read-only open writes no log file (it may check, never recover or migrate)
+    ensures[flock_ro_nowrite] opts.Readonly ==> (forall p string :: fsContent[p] == old(fsContent)[p])
     // INV is established: segments ordered by base, only the last one is the head, a writable log owns it
     ensures[struct_wf]      err == nil ==> typeis(result, *log) && structWf(result.(*log)) && result.(*log).opts.Readonly == opts.Readonly
     loop 1
